@@ -492,3 +492,106 @@ func TestVerifC20_SupersededAtStart(t *testing.T) {
 		s.Post("abort")
 	})
 }
+
+// A preview whose output arrives in two parts is scrolled while the command is still running,
+// then the rest arrives. When everything is quiet the window shows the complete output at the
+// offset it was scrolled to: consecutive lines from the top row on, down to the last line of the
+// output or to the bottom of the window.
+func c20ScrolledWhileStreaming(t *rapid.T) {
+	const paneH = 14
+	n1 := rapid.SampledFrom([]int{3, 10, 14, 15, 30, 40, 60}).Draw(t, "firstPart")
+	n2 := n1 + rapid.IntRange(1, 20).Draw(t, "secondPart")
+	pause := rapid.SampledFrom([]int{4, 6, 9}).Draw(t, "pauseTenths")
+	cmd := fmt.Sprintf("seq 1 %d | sed s/^/L/; sleep 0.%d; seq %d %d | sed s/^/L/", n1, pause, n1+1, n2)
+	args := []string{"--no-mouse", "--preview", cmd, "--preview-window", "right,50%,border-none"}
+	if rapid.IntRange(0, 3).Draw(t, "follow") == 0 {
+		args[len(args)-1] += ",follow"
+	}
+	s := StartSession(t, SessionCfg{Args: args, Input: []byte("one\ntwo\n"), Width: 80, Height: paneH})
+	defer s.Close()
+	history := []string{fmt.Sprintf("fzf %q", args)}
+	previewLines := func() []int {
+		var out []int
+		for _, row := range s.Capture() {
+			r := []rune(row)
+			if len(r) <= 40 {
+				continue
+			}
+			right := strings.TrimSpace(string(r[40:]))
+			if f := strings.Fields(right); len(f) > 0 && strings.HasPrefix(f[0], "L") {
+				if v, err := strconv.Atoi(f[0][1:]); err == nil {
+					out = append(out, v)
+				}
+			}
+		}
+		return out
+	}
+	// the first part is on the screen
+	deadline := time.Now().Add(20 * time.Second)
+	for {
+		if ls := previewLines(); len(ls) > 0 {
+			break
+		}
+		if time.Now().After(deadline) {
+			infra(t, "the preview did not start")
+		}
+		time.Sleep(10 * time.Millisecond)
+	}
+	nscroll := rapid.IntRange(0, 6).Draw(t, "scrolls")
+	for i := 0; i < nscroll; i++ {
+		a := rapid.SampledFrom([]string{"preview-page-down", "preview-page-down", "preview-half-page-down", "preview-down", "preview-down+preview-down+preview-down", "preview-bottom", "preview-up", "preview-page-up"}).Draw(t, "scroll")
+		s.Post(a)
+		history = append(history, "POST "+a)
+		time.Sleep(time.Duration(rapid.SampledFrom([]int{0, 10, 40}).Draw(t, "gapMs")) * time.Millisecond)
+	}
+	// quiescence: the command has ended (nothing of it is alive) and the screen is stable
+	var shown []int
+	why := ""
+	stableSince := time.Now()
+	prev := ""
+	deadline = time.Now().Add(30 * time.Second)
+	for {
+		shown = previewLines()
+		cur := fmt.Sprint(shown)
+		if cur != prev {
+			prev, stableSince = cur, time.Now()
+		}
+		why = ""
+		if len(shown) == 0 {
+			why = "no line of the output is shown"
+		} else {
+			for i := 1; i < len(shown); i++ {
+				if shown[i] != shown[i-1]+1 {
+					why = fmt.Sprintf("lines %d and %d follow each other", shown[i-1], shown[i])
+				}
+			}
+			if why == "" && shown[len(shown)-1] != n2 && len(shown) < paneH {
+				why = fmt.Sprintf("the window ends with line %d of %d although %d rows are left", shown[len(shown)-1], n2, paneH-len(shown))
+			}
+		}
+		if why == "" && time.Since(stableSince) > 300*time.Millisecond {
+			break
+		}
+		// wrong and stable well after the command must have ended
+		if why != "" && time.Since(stableSince) > 3*time.Second {
+			break
+		}
+		if time.Now().After(deadline) {
+			break
+		}
+		time.Sleep(30 * time.Millisecond)
+	}
+	scrolledPastEnd := nscroll > 0 && len(shown) > 0 && shown[0]+paneH-1 > n1
+	vstat.Case("C20/scrolled-while-streaming", strings.Join(history, "|")+fmt.Sprint(n1, n2), scrolledPastEnd, fmt.Sprintf("scrolls=%d", imin(nscroll, 3)), fmt.Sprintf("first_part_fills_window=%v", n1 >= paneH))
+	if why != "" {
+		if pt := s.panicText(); pt != "" {
+			t.Fatalf("fzf crashed\nhistory:\n  %s\n%s", strings.Join(history, "\n  "), pt)
+		}
+		t.Fatalf("the preview command printed %d lines (%d, a pause, the rest) and has ended; the window shows the lines %v: %s\nscreen:\n%s\nhistory:\n  %s", n2, n1, shown, why, strings.Join(s.Capture(), "\n"), strings.Join(history, "\n  "))
+	}
+	s.Post("abort")
+}
+
+func TestVerifC20_ScrolledWhileStreaming(t *testing.T) {
+	rapid.Check(t, c20ScrolledWhileStreaming)
+}
